@@ -145,13 +145,13 @@ fn list_current_history(sh: &Shell, conn: &Conn,
     let mut sql = format!("SELECT ROWID, inp, tsb FROM {} WHERE ROWID > 0",
                           history_table);
     if !opt.pattern.is_empty() {
-        sql = format!("{} AND inp LIKE '%{}%'", sql, opt.pattern)
+        sql = format!("{} AND inp LIKE '%{}%'", sql, opt.pattern.replace("'", "''"))
     }
     if opt.session {
-        sql = format!("{} AND sessionid = '{}'", sql, sh.session_id)
+        sql = format!("{} AND sessionid = '{}'", sql, sh.session_id.replace("'", "''"))
     }
     if opt.pwd {
-        sql = format!("{} AND info like '%dir:{}|%'", sql, sh.current_dir)
+        sql = format!("{} AND info like '%dir:{}|%'", sql, sh.current_dir.replace("'", "''"))
     }
 
     if opt.asc {
